@@ -248,12 +248,13 @@ fn cmd_merge(args: &[String]) -> i32 {
     }
     // replay files for violations
     let mut exit = 0;
-    std::fs::create_dir_all("/verif/evidence/replays").ok();
+    let evdir_r = std::env::var("VERIF_EVIDENCE_DIR").unwrap_or_else(|_| "/verif/evidence".to_string());
+    std::fs::create_dir_all(format!("{}/replays", evdir_r)).ok();
     let mut printed: HashSet<String> = HashSet::new();
     for v in &violations {
         let text = serde_json::to_string_pretty(v).unwrap();
         let h = fingerprint("replay", &format!("{}{}", v.check, v.case));
-        let path = format!("/verif/evidence/replays/{}-{:016x}.json", id, h);
+        let path = format!("{}/replays/{}-{:016x}.json", evdir_r, id, h);
         if printed.insert(path.clone()) {
             std::fs::write(&path, text).ok();
             println!("VIOLATION property={} replay={}", id, path);
@@ -288,8 +289,9 @@ fn cmd_merge(args: &[String]) -> i32 {
         "wall_s": wall.max(parts.iter().map(|p| p.wall_s).sum()),
         "violations": violations.len(),
     });
-    std::fs::create_dir_all("/verif/evidence").ok();
-    std::fs::write(format!("/verif/evidence/{}.json", id), serde_json::to_string_pretty(&evidence).unwrap()).expect("evidence");
+    let evdir = std::env::var("VERIF_EVIDENCE_DIR").unwrap_or_else(|_| "/verif/evidence".to_string());
+    std::fs::create_dir_all(&evdir).ok();
+    std::fs::write(format!("{}/{}.json", evdir, id), serde_json::to_string_pretty(&evidence).unwrap()).expect("evidence");
     if exit == 0 {
         println!(
             "OK property={} tier={} evaluations={} distinct_nontrivial={} known_hits={}",
